@@ -27,7 +27,7 @@ var vcErrnoBy = map[int][]syscall.Errno{
 	vfltEpollCtlAdd:    {syscall.ENOMEM, syscall.ENOSPC, syscall.EPERM},
 	vfltEpollCtlMod:    {syscall.ENOMEM, syscall.ENOENT},
 	vfltSendmsg:        {syscall.EPIPE, syscall.ECONNRESET, syscall.ENOBUFS, syscall.ENOMEM, syscall.EINTR, syscall.EAGAIN},
-	vfltReadv:          {syscall.ECONNRESET, syscall.ETIMEDOUT, syscall.ENOMEM, syscall.EINTR, syscall.EAGAIN},
+	vfltReadv:          {syscall.ECONNRESET, syscall.ETIMEDOUT, syscall.ENOMEM, syscall.EIO},
 }
 
 // vcFaultRuleFor draws one rule for a site: a few calls pass, then 1-3 fail.
@@ -195,4 +195,15 @@ func vc15FaultAct(t *vcTrial, act string, r *vfRng, tmp string, unixPath func() 
 		// "fdconn-unpollable"): the ledger reports it as not_closed otherwise
 		syscall.Close(fds[1])
 	}
+}
+
+// vcTransientFaults: sendmsg reports EAGAIN with the given per-mille probability - the real
+// errno of a full socket buffer; the call transferred nothing. (readv is not failed with
+// EAGAIN/EINTR: once a descriptor is readable a non-blocking read cannot return either, and the
+// first version, which injected them, raised a false alarm inside the poller's drain-before-
+// hang-up loop - see DESIGN.md, triage log.)
+func vcTransientFaults(seed uint64, pm int) *vcFaultPlan {
+	return &vcFaultPlan{Seed: seed, Rules: []*vcFaultRule{
+		{Site: vfltSendmsg, Errno: syscall.EAGAIN, FD: -1, PerMille: pm},
+	}}
 }
